@@ -1,0 +1,7 @@
+//go:build verif && !(linux && amd64)
+
+package transforms32
+
+var verifHaveASM = false
+
+func verifUseASM() {}
